@@ -708,10 +708,13 @@ package avro
 //@ spec outdesc(out iface) ptr = rkind(typedesc(tag(out))) == 22 ? relem(typedesc(tag(out))) : typedesc(tag(out))
 
 //@ func (Schema).Codec
+//@   props C12
 //@   requires out != nil
 //@   ensures [C05,C06] err == nil ==> res != nil && wfc(res) && typed(res) && dsz(res) <= rtypesz(outdesc(out)) && 0 <= dsz(res)
 //@   uses kind_sizes(typedesc(tag(out)))
-//@   modifies heap cell:github.com/philpearl/avro.Codec.tag, heap cell:github.com/philpearl/avro.Codec.data
+//@   requires [C12] regFree()
+//@   ensures [C12] regFree()
+//@   modifies heap cell:github.com/philpearl/avro.Codec.tag, heap cell:github.com/philpearl/avro.Codec.data, ghost lock.rheld
 
 //@ func (*ReadBuf).Reset
 //@   props C06
@@ -1151,11 +1154,18 @@ package avro
 
 // registrations are made with non-nil builder functions (Register is part of the caller's set-up, not of the input)
 //@ global forall t iface :: maphas(registry, t) ==> mapget(registry, t) != nil
+//     C12: the codec registry is read under registryMutex.RLock and written under registryMutex.Lock
+//@ guard registry by registryMutex
+//@ spec regFree() bool = !locked(registryMutex) && !rlocked(registryMutex)
 //@ func Register
+//@   props C12
 //@   requires f != nil
-//@   modifies map registry, type sync.RWMutex
+//@   requires [C12] regFree()
+//@   ensures [C12] regFree()
+//@   modifies map map[reflect.Type]github.com/philpearl/avro.CodecBuildFunc, type sync.RWMutex, ghost lock.held
 
 //@ func buildCodec
+//@   props C12
 //@   requires typ != nil ==> data(typ) != nil
 //@   ensures [C05,C13,C20,C06] built(res, err, typ)
 //     C20: a registration for typ governs (unless the schema is a union or null, or typ is a pointer, which are unwrapped
@@ -1163,45 +1173,63 @@ package avro
 //@   ensures [C20] (!streq(schema.Type, "union") && !streq(schema.Type, "null") && typ != nil && rkind(data(typ)) != 22 && maphas(registry, typ)) ==> tlen() == 1 && tkind(0) == evREG && res == ifaceof(tc(0), td(0))
 //@   ensures [C20] (typ == nil || !maphas(registry, typ)) ==> tlen() == 0
 //@   uses kind_sizes(data(typ))
-//@   modifies heap cell:github.com/philpearl/avro.Codec.tag, heap cell:github.com/philpearl/avro.Codec.data
+//@   requires [C12] regFree()
+//@   ensures [C12] regFree()
+//@   modifies heap cell:github.com/philpearl/avro.Codec.tag, heap cell:github.com/philpearl/avro.Codec.data, ghost lock.rheld
 
 //@ func buildPointerCodec
+//@   props C12
 //@   requires typ != nil && data(typ) != nil && rkind(data(typ)) == 22
 //@   ensures [C05,C13,C20,C06] built(res, err, typ)
 //@   uses kind_sizes(data(typ))
-//@   modifies heap cell:github.com/philpearl/avro.Codec.tag, heap cell:github.com/philpearl/avro.Codec.data
+//@   requires [C12] regFree()
+//@   ensures [C12] regFree()
+//@   modifies heap cell:github.com/philpearl/avro.Codec.tag, heap cell:github.com/philpearl/avro.Codec.data, ghost lock.rheld
 
 //@ func buildArrayCodec
+//@   props C12
 //@   requires typ != nil ==> data(typ) != nil
 //@   ensures [C05,C13,C20,C06] built(res, err, typ)
 //@   ensures [C05] (typ != nil && rkind(data(typ)) != 23) ==> err != nil
 //@   uses kind_sizes(data(typ))
 //@   uses kind_sizes(relem(data(typ)))
-//@   modifies heap cell:github.com/philpearl/avro.Codec.tag, heap cell:github.com/philpearl/avro.Codec.data
+//@   requires [C12] regFree()
+//@   ensures [C12] regFree()
+//@   modifies heap cell:github.com/philpearl/avro.Codec.tag, heap cell:github.com/philpearl/avro.Codec.data, ghost lock.rheld
 
 //@ func BuildMapCodec
+//@   props C12
 //@   requires typ != nil ==> data(typ) != nil
 //@   ensures [C05,C13,C20,C06] built(res, err, typ)
 //@   ensures [C05] (typ != nil && (rkind(data(typ)) != 21 || rkind(rkey(data(typ))) != 24)) ==> err != nil
 //@   uses kind_sizes(data(typ))
-//@   modifies heap cell:github.com/philpearl/avro.Codec.tag, heap cell:github.com/philpearl/avro.Codec.data
+//@   requires [C12] regFree()
+//@   ensures [C12] regFree()
+//@   modifies heap cell:github.com/philpearl/avro.Codec.tag, heap cell:github.com/philpearl/avro.Codec.data, ghost lock.rheld
 
 // Unions of a type and null are the supported shape.  General unions get a stub codec (its Write is unimplemented, a
 // known finding); the construction facts for that stub are assumed, not proved.
 //@ func buildUnionCodec
+//@   props C12
 //@   requires typ != nil ==> data(typ) != nil
 //@   ensures [C05,C13,C20,C06] (len(schema.Union) == 2 && (streq(schema.Union[0].Type, "null") || streq(schema.Union[1].Type, "null"))) ==> built(res, err, typ)
 //@   ensures [assume] built(res, err, typ)
 //@   uses kind_sizes(data(typ))
 //     the branch table of the stub codec for general unions is filled in place (fresh memory)
-//@   modifies heap cell:github.com/philpearl/avro.Codec.tag, heap cell:github.com/philpearl/avro.Codec.data
+//@   requires [C12] regFree()
+//@   ensures [C12] regFree()
+//@   modifies heap cell:github.com/philpearl/avro.Codec.tag, heap cell:github.com/philpearl/avro.Codec.data, ghost lock.rheld
 //@   loop 1 invariant -1 <= rangeindex && rangeindex < len(schema.Union) && len(c.codecs) == len(schema.Union)
+//@   loop 1 invariant [C12] regFree()
 //@   loop 1 decreases len(schema.Union) - rangeindex
 
 //@ func buildRecordCodec
+//@   props C12
 //@   requires typ != nil ==> data(typ) != nil
 //@   ensures [C05,C13,C20,C06] built(res, err, typ)
-//@   modifies heap cell:github.com/philpearl/avro.Codec.tag, heap cell:github.com/philpearl/avro.Codec.data
+//@   requires [C12] regFree()
+//@   ensures [C12] regFree()
+//@   modifies heap cell:github.com/philpearl/avro.Codec.tag, heap cell:github.com/philpearl/avro.Codec.data, ghost lock.rheld
 //@   trusted
 
 //@ func (*MapCodec).Read
@@ -1320,15 +1348,29 @@ package avro
 //@ ghost tdepth(d ptr) int
 //@ axiom tdepth_bounds(d ptr): 0 <= tdepth(d) && tdepth(d) < 1<<30
 
+//     C12: the schema registry is read under schemaRegistryMutex.RLock and written under its Lock
+//@ guard schemaRegistry by schemaRegistryMutex
+//@ spec sregFree() bool = !locked(schemaRegistryMutex) && !rlocked(schemaRegistryMutex)
+
+//@ func RegisterSchema
+//@   props C12
+//@   requires [C12] sregFree()
+//@   ensures [C12] sregFree()
+//@   modifies map map[reflect.Type]github.com/philpearl/avro.Schema, type sync.RWMutex, ghost lock.held
+
 //@ func isInSchemaRegistry
+//@   props C12
+//@   requires [C12] sregFree()
+//@   ensures [C12] sregFree()
 //@   ensures [C15,C20] res1 == maphas(schemaRegistry, typ) && (res1 ==> sameSchema(res0, mapget(schemaRegistry, typ)))
-//@   modifies type sync.RWMutex
+//@   modifies type sync.RWMutex, ghost lock.rheld
 
 //@ func nullableSchema
 //@   ensures [C15] streq(res.Type, "union") && len(res.Union) == 2 && streq(res.Union[0].Type, "null") && res.Union[0].Object == nil && len(res.Union[0].Union) == 0 && sameSchema(res.Union[1], s) && res.Object == nil
 //@   pure
 
 //@ func schemaForType
+//@   props C12
 //@   uses tdepth_bounds(data(typ))
 //@   uses tdepth_bounds(relem(data(typ)))
 //@   measure 2 * tdepth(data(typ)) + 1
@@ -1356,37 +1398,51 @@ package avro
 //@   ensures [C15] !reg && k == 22 && !elemReg && isIntKind(rkind(relem(data(typ)))) ==> err == nil && streq(res.Type, "union") && len(res.Union) == 2 && streq(res.Union[0].Type, "null") && streq(res.Union[1].Type, "long")
 //@   ensures [C15] !reg && k == 22 && !elemReg && rkind(relem(data(typ))) == 24 ==> err == nil && streq(res.Type, "union") && len(res.Union) == 2 && streq(res.Union[0].Type, "null") && streq(res.Union[1].Type, "string")
 //@   ensures [C15] !reg && k == 22 && !elemReg && rkind(relem(data(typ))) == 23 && rkind(relem(relem(data(typ)))) == 8 ==> err == nil && streq(res.Type, "union") && len(res.Union) == 2 && streq(res.Union[0].Type, "null") && streq(res.Union[1].Type, "bytes")
-//@   modifies type sync.RWMutex, heap cell:github.com/philpearl/avro.Schema.Type.base, heap cell:github.com/philpearl/avro.Schema.Type.off, heap cell:github.com/philpearl/avro.Schema.Type.len
+//@   requires [C12] sregFree()
+//@   ensures [C12] sregFree()
+//@   modifies type sync.RWMutex, heap cell:github.com/philpearl/avro.Schema.Type.base, heap cell:github.com/philpearl/avro.Schema.Type.off, heap cell:github.com/philpearl/avro.Schema.Type.len, ghost lock.rheld
 
 //@ func schemaForArray
+//@   props C12
 //@   uses tdepth_bounds(data(typ))
 //@   uses tdepth_bounds(relem(data(typ)))
 //@   measure 2 * tdepth(data(typ))
 //@   requires typ != nil && data(typ) != nil && (rkind(data(typ)) == 17 || rkind(data(typ)) == 23)
 //@   ensures [C15] rkind(relem(data(typ))) == 8 ==> err == nil && streq(res.Type, "bytes") && res.Object == nil && len(res.Union) == 0
 //@   ensures [C15] rkind(relem(data(typ))) != 8 && err == nil ==> streq(res.Type, "array") && res.Object != nil && len(res.Union) == 0
-//@   modifies type sync.RWMutex, heap cell:github.com/philpearl/avro.Schema.Type.base, heap cell:github.com/philpearl/avro.Schema.Type.off, heap cell:github.com/philpearl/avro.Schema.Type.len
+//@   requires [C12] sregFree()
+//@   ensures [C12] sregFree()
+//@   modifies type sync.RWMutex, heap cell:github.com/philpearl/avro.Schema.Type.base, heap cell:github.com/philpearl/avro.Schema.Type.off, heap cell:github.com/philpearl/avro.Schema.Type.len, ghost lock.rheld
 
 //@ func schemaForMap
+//@   props C12
 //@   uses tdepth_bounds(data(typ))
 //@   uses tdepth_bounds(relem(data(typ)))
 //@   measure 2 * tdepth(data(typ))
 //@   requires typ != nil && data(typ) != nil && rkind(data(typ)) == 21
 //@   ensures [C15] err == nil ==> streq(res.Type, "map") && res.Object != nil && len(res.Union) == 0
-//@   modifies type sync.RWMutex, heap cell:github.com/philpearl/avro.Schema.Type.base, heap cell:github.com/philpearl/avro.Schema.Type.off, heap cell:github.com/philpearl/avro.Schema.Type.len
+//@   requires [C12] sregFree()
+//@   ensures [C12] sregFree()
+//@   modifies type sync.RWMutex, heap cell:github.com/philpearl/avro.Schema.Type.base, heap cell:github.com/philpearl/avro.Schema.Type.off, heap cell:github.com/philpearl/avro.Schema.Type.len, ghost lock.rheld
 
 // field enumeration through reflect.StructField values is not modelled: trusted
 //@ func schemaForStruct
+//@   props C12
 //@   measure 2 * tdepth(data(typ))
 //@   requires typ != nil && data(typ) != nil && rkind(data(typ)) == 25
 //@   ensures [C15] err == nil ==> streq(res.Type, "record") && res.Object != nil && len(res.Union) == 0
-//@   modifies type sync.RWMutex, heap cell:github.com/philpearl/avro.Schema.Type.base, heap cell:github.com/philpearl/avro.Schema.Type.off, heap cell:github.com/philpearl/avro.Schema.Type.len
+//@   requires [C12] sregFree()
+//@   ensures [C12] sregFree()
+//@   modifies type sync.RWMutex, heap cell:github.com/philpearl/avro.Schema.Type.base, heap cell:github.com/philpearl/avro.Schema.Type.off, heap cell:github.com/philpearl/avro.Schema.Type.len, ghost lock.rheld
 //@   trusted
 
 //@ func SchemaForType
+//@   props C12
 //@   requires item != nil
 //@   ensures [C15] (rkind(typedesc(tag(item))) != 25 && !(rkind(typedesc(tag(item))) == 22 && rkind(relem(typedesc(tag(item)))) == 25)) ==> err != nil
-//@   modifies type sync.RWMutex, heap cell:github.com/philpearl/avro.Schema.Type.base, heap cell:github.com/philpearl/avro.Schema.Type.off, heap cell:github.com/philpearl/avro.Schema.Type.len
+//@   requires [C12] sregFree()
+//@   ensures [C12] sregFree()
+//@   modifies type sync.RWMutex, heap cell:github.com/philpearl/avro.Schema.Type.base, heap cell:github.com/philpearl/avro.Schema.Type.off, heap cell:github.com/philpearl/avro.Schema.Type.len, ghost lock.rheld
 
 // general unions cannot be written: the method panics unconditionally (known finding of C13/C02: a codec for such a
 // schema can be built, but writing through it crashes)
